@@ -42,6 +42,14 @@ func wsScript(name string) []wsStep {
 	case "long_session", "long_session_tokens":
 		// the tunnel outlives the configured end-to-end handler timeout (1 s in this script's configuration)
 		return []wsStep{{"c2s", t, 5}, {"s2c", t, 5}, {"pause", 0, 1600}, {"c2s", t, 7}, {"s2c", t, 7}}
+	case "duplex":
+		// both directions carry large messages AT THE SAME TIME: each side writes its messages back to back in one
+		// goroutine while it reads the other side's in another (a pipelined echo, a chat under load)
+		st := []wsStep{}
+		for i := 0; i < 10; i++ {
+			st = append(st, wsStep{"c2s", b, 100000 + i}, wsStep{"s2c", b, 90000 + i})
+		}
+		return st
 	case "binary_mix":
 		return []wsStep{{"s2c", b, 127}, {"c2s", b, 128}, {"s2c", t, 65535}, {"c2s", t, 65537}}
 	}
@@ -86,6 +94,7 @@ type wsSession struct {
 	got    []string
 	closed bool // the peer's close was seen
 	done   chan struct{}
+	duplex bool // both directions run at once
 }
 
 var (
@@ -111,7 +120,36 @@ func wsBackendHandler(w http.ResponseWriter, r *http.Request) {
 	}
 	defer c.Close()
 	c.SetReadLimit(1 << 22)
+	if s.duplex {
+		// write all s2c messages back to back while reading the c2s messages as they come
+		c.SetReadDeadline(time.Now().Add(15 * time.Second))
+		c.SetWriteDeadline(time.Now().Add(15 * time.Second))
+		wdone := make(chan struct{})
+		go func() {
+			defer close(wdone)
+			for i, st := range s.steps {
+				if st.dir == "s2c" {
+					if err := c.WriteMessage(st.typ, wsPayload(s.seed, i, st)); err != nil {
+						return
+					}
+				}
+			}
+		}()
+		for _, st := range s.steps {
+			if st.dir == "c2s" {
+				typ, p, err := c.ReadMessage()
+				if err != nil {
+					break
+				}
+				s.got = append(s.got, frameSig(typ, p))
+			}
+		}
+		<-wdone
+	}
 	for i, st := range s.steps {
+		if s.duplex {
+			break
+		}
 		if st.dir == "pause" {
 			continue // the client waits; the backend just keeps reading
 		}
@@ -180,7 +218,7 @@ func runWS(idx int, raw json.RawMessage, seed int64) map[string]any {
 	}
 	defer func() { h.srv.Close(); h.lb.Stop() }()
 	key := fmt.Sprintf("ws%d", idx)
-	s := &wsSession{steps: wsScript(c.Script), seed: seed + int64(idx), closer: c.Closer, done: make(chan struct{})}
+	s := &wsSession{steps: wsScript(c.Script), seed: seed + int64(idx), closer: c.Closer, done: make(chan struct{}), duplex: c.Script == "duplex"}
 	wsMu.Lock()
 	wsSessions[key] = s
 	wsMu.Unlock()
@@ -207,7 +245,43 @@ func runWS(idx int, raw json.RawMessage, seed int64) map[string]any {
 	o["upgraded"] = true
 	c2sSent, s2cSent, s2cGot := []string{}, []string{}, []string{}
 	ok := true
+	if s.duplex {
+		conn.SetReadDeadline(time.Now().Add(15 * time.Second))
+		conn.SetWriteDeadline(time.Now().Add(15 * time.Second))
+		wdone := make(chan struct{})
+		go func() {
+			defer close(wdone)
+			for i, st := range s.steps {
+				if st.dir == "c2s" {
+					if err := conn.WriteMessage(st.typ, wsPayload(s.seed, i, st)); err != nil {
+						return
+					}
+				}
+			}
+		}()
+		for i, st := range s.steps {
+			p := wsPayload(s.seed, i, st)
+			if st.dir == "c2s" {
+				c2sSent = append(c2sSent, frameSig(st.typ, p))
+				continue
+			}
+			s2cSent = append(s2cSent, frameSig(st.typ, p))
+			if !ok {
+				continue
+			}
+			typ, got, err := conn.ReadMessage()
+			if err != nil {
+				ok = false
+				continue
+			}
+			s2cGot = append(s2cGot, frameSig(typ, got))
+		}
+		<-wdone
+	}
 	for i, st := range s.steps {
+		if s.duplex {
+			break
+		}
 		if st.dir == "pause" {
 			if ok {
 				time.Sleep(time.Duration(st.size) * time.Millisecond)
